@@ -1,8 +1,6 @@
 package pdu
 
 import (
-	"fmt"
-
 	. "github.com/M2MGateway/go-smpp/coding"
 )
 
@@ -39,9 +37,16 @@ func ComposeMultipartShortMessage(input string, coding DataCoding, reference uin
 	return
 }
 
+// multipartID identifies a concatenated message: segments belong together only
+// if source address, destination address and reference number are all equal.
+type multipartID struct {
+	SourceAddr, DestAddr Address
+	Reference            uint16
+}
+
 func CombineMultipartDeliverSM(on func([]*DeliverSM)) func(*DeliverSM) {
-	registry := make(map[string][]*DeliverSM)
-	isDone := func(id string, total byte) bool {
+	registry := make(map[multipartID][]*DeliverSM)
+	isDone := func(id multipartID, total byte) bool {
 		for _, sm := range registry[id] {
 			if sm != nil {
 				total--
@@ -54,11 +59,7 @@ func CombineMultipartDeliverSM(on func([]*DeliverSM)) func(*DeliverSM) {
 		if header == nil {
 			on([]*DeliverSM{p})
 		} else {
-			id := fmt.Sprint(
-				p.SourceAddr.TON, p.SourceAddr.NPI, p.SourceAddr.No,
-				p.DestAddr.TON, p.DestAddr.NPI, p.DestAddr.No,
-				header.Reference,
-			)
+			id := multipartID{p.SourceAddr, p.DestAddr, header.Reference}
 			if _, ok := registry[id]; !ok {
 				registry[id] = make([]*DeliverSM, header.TotalParts)
 			}
